@@ -573,6 +573,46 @@ fn large(ctx: &mut Ctx) {
             }
         }
     }
+    // entry sizes that equal a legal one modulo 2^16 (or 2^8): neither layout, so the first in-use entry is refused
+    ctx.bound("entry_sizes_modulo", "entry size in {40, 64} + k * 2^16 for k in 1..=2, + 256, + 2^24 (the last one on a tag that only holds two such strides on paper) x 1 or 2 entries physically present at that stride, first header in use: sections() or the first next() must end in a controlled panic (the entry size is neither 40 nor 64)");
+    {
+        let wide = Arena::new(70);
+        for base_sz in [40u32, 64] {
+            for add in [256u32, 1 << 16, 2 << 16, 1 << 24] {
+                for n in [1u32, 2] {
+                    let es = base_sz + add;
+                    let describe = || J::obj().set("part", "entry_sizes_modulo").set("entry_size", es).set("entries", n);
+                    ctx.leaf(describe, |ctx| {
+                        ctx.state_direct();
+                        ctx.nontrivial();
+                        // physically present when it fits the arena; otherwise the tag is too short and must be refused as well
+                        let phys = (n as usize * es as usize).min(wide.len() - 64);
+                        let mut sec = vec![0u8; phys];
+                        for k in 0..n as usize {
+                            let o = k * es as usize;
+                            if o + 64 <= sec.len() {
+                                let e = if base_sz == 40 { bi::enc_shdr32(1, 1, 2, 0x1000, 0, 0x10, 0, 0, 4, 0) } else { bi::enc_shdr64(1, 1, 2, 0x1000, 0, 0x10, 0, 0, 4, 0) };
+                                sec[o..o + e.len()].copy_from_slice(&e);
+                            }
+                        }
+                        let mut img = bi::enc_elf(n, es, 0, &sec);
+                        while img.len() % 8 != 0 {
+                            img.push(0);
+                        }
+                        wide.fill(arena::FILL_A);
+                        let p = wide.place_right(&img);
+                        let slice: &[u8] = unsafe { std::slice::from_raw_parts(p, img.len()) };
+                        let tag = Generic::ref_from_slice(slice).unwrap().cast::<ElfSectionsTag>();
+                        let r = ctx.call("sections + first items", || tag.sections().take(3).map(|s| (s.section_type_raw(), s.start_address())).collect::<Vec<_>>());
+                        match r {
+                            Out::Panic => ctx.class("elf:entry-size-refused"),
+                            Out::Val(got) => ctx.violation("c19/entry-size-modulo", || format!("entry size {} ({} entries): the iterator yields {:x?}; an entry size that is neither 40 nor 64 must be refused by a controlled panic", es, n, got)),
+                        }
+                    });
+                }
+            }
+        }
+    }
     // names on the far side of 4 GiB: a string table whose address lies just below 2^32 and a name index that carries
     // the sum across it (the table is mapped on both sides of the boundary)
     ctx.bound("names_across_4gib", "string table mapped across the 4 GiB boundary (pages at 2^32 - 8 KiB .. 2^32 + 8 KiB): table address 2^32 - {256, 16, 1} x name index that puts the name just below, across and just above 2^32, both layouts: the name is read at address + index computed in 64 bits");
